@@ -103,6 +103,8 @@ pub struct AppBehaviour {
     pub accept_time: bool,
     pub accept_freeze: bool,
     pub deadbands: bool,
+    /// a successful write_absolute_time clears the NEED_TIME indication
+    pub clear_need_time_on_write: bool,
 }
 
 impl Default for AppBehaviour {
@@ -114,15 +116,16 @@ impl Default for AppBehaviour {
             accept_time: true,
             accept_freeze: true,
             deadbands: true,
+            clear_need_time_on_write: false,
         }
     }
 }
 
 pub type AppState = Arc<Mutex<AppBehaviour>>;
 
-struct App {
-    log: CbLog,
-    state: AppState,
+pub struct App {
+    pub log: CbLog,
+    pub state: AppState,
 }
 
 impl OutstationApplication for App {
@@ -131,7 +134,11 @@ impl OutstationApplication for App {
     }
     fn write_absolute_time(&mut self, time: Timestamp) -> Result<(), RequestError> {
         self.log.lock().unwrap().push(Cb::WriteAbsTime(time.raw_value()));
-        if self.state.lock().unwrap().accept_time {
+        let mut st = self.state.lock().unwrap();
+        if st.accept_time {
+            if st.clear_need_time_on_write {
+                st.iin.need_time = false;
+            }
             Ok(())
         } else {
             Err(RequestError::NotSupported)
@@ -209,8 +216,8 @@ impl OutstationApplication for App {
     }
 }
 
-struct Info {
-    log: CbLog,
+pub struct Info {
+    pub log: CbLog,
 }
 
 impl OutstationInformation for Info {
@@ -273,9 +280,9 @@ pub enum CtrlMode {
     AllNotSupported,
 }
 
-struct Ctrl {
-    log: CbLog,
-    mode: CtrlMode,
+pub struct Ctrl {
+    pub log: CbLog,
+    pub mode: CtrlMode,
 }
 
 impl Ctrl {
